@@ -102,6 +102,42 @@ def main():
     expect("MexTrace rejects a shifted unwrap index with a C06 clause", any(c.startswith("C06:") and "unwrapping" in c for c in v["unwrap-index-shifted"]), v["unwrap-index-shifted"])
     expect("MexTrace rejects a missing file with a C10 clause", any(c.startswith("C10:toolbox-files") for c in v["file-removed"]), v["file-removed"])
     expect("MexTrace rejects a duplicated id with a C05 clause", any(c.startswith("C05:call-site-ids") for c in v["id-duplicated"]), v["id-duplicated"])
+    # ---- WrapTrace: recorded run of each generator on a fixture; corrupted copies must be rejected
+    import c07
+    import layout as _layout
+    import lexer as _lexer
+    toks = _lexer.lex(fixture("functions.i"))
+    runs = []
+    for which in ("pybind", "matlab"):
+        t = c07.record_run(("fixture", toks, ("none", 0, 0), which)) if toks else None
+        if t:
+            t["id"] = which + "-good"
+            runs.append(t)
+            late = copy.deepcopy(t); late["id"] = which + "-fails-after-writing"; late["events"][-1]["ok"] = False
+            runs.append(late)
+            early = copy.deepcopy(t); early["id"] = which + "-writes-before-generating"
+            gi = [i for i, e in enumerate(early["events"]) if e["ev"] == "Generate"][0]
+            wi = [i for i, e in enumerate(early["events"]) if e["ev"] == "Write"][0]
+            early["events"].insert(gi, early["events"].pop(wi))
+            runs.append(early)
+            lost = copy.deepcopy(t); lost["id"] = which + "-write-event-removed"
+            names = [e["name"] for e in lost["events"] if e["ev"] == "Write"]
+            del lost["events"][[i for i, e in enumerate(lost["events"]) if e["ev"] == "Write" and names.count(e["name"]) == 1][-1]]
+            runs.append(lost)
+    fd, path = tempfile.mkstemp(suffix=".json")
+    with os.fdopen(fd, "w") as f:
+        json.dump([{"id": t["id"], "input": t["input"], "events": t["events"]} for t in runs], f)
+    rwt = tlc.run("WrapTrace", "WrapTrace.cfg", env={"TRACE_FILE": path}, timeout=300)
+    os.unlink(path)
+    wv = {t[1]: t[2] for t in rwt.by_tag("VERDICT")}
+    for which in ("pybind", "matlab"):
+        expect("WrapTrace accepts the recorded %s run" % which, wv.get(which + "-good") == "", wv)
+        expect("WrapTrace rejects a %s run that fails after writing" % which, wv.get(which + "-fails-after-writing", "") != "", wv)
+        expect("WrapTrace rejects a %s run that writes before generating" % which, wv.get(which + "-writes-before-generating", "") != "", wv)
+        expect("WrapTrace rejects a %s run with a removed Write event" % which, wv.get(which + "-write-event-removed", "") != "", wv)
+    rwm = tlc.run("Wrap", "Wrap.cfg", workers=2, timeout=300, coverage=True)
+    for act in ("Parse", "Instantiate", "Write", "Finish"):
+        expect("Wrap action %s taken" % act, rwm.coverage.get(act, (0, 0))[1] > 0, rwm.coverage.get(act))
     # ---- coverage of the machine specs (vacuity)
     cfg = cases.EXH_CFG.format(universe="ns", typedepth=0, maxargs=0, target=3, members=1, rich="FALSE", maxitems=3)
     rc = tlc.run("IfaceExh", cfg_text=cfg, workers=1, timeout=600, coverage=True)
